@@ -3,6 +3,7 @@ SPECIFICATION Spec
 CONSTANTS
   Shapes <- ShapesA
   StepVals <- Steps12
+  Broadcast = FALSE
   MaxSlices = 1
   MaxWrites = 1
   MaxReshapes = 1
